@@ -1,10 +1,19 @@
-"""Shared case spaces for the SCHED checks (DESIGN 2.5 menus)."""
+"""Shared case spaces for the SCHED checks (DESIGN 2.5 menus). A case is a JSON-able dict:
+
+  n, es=[(i, j, kind, path)...] | [(i, j)...], res, seq, prio, mc, is_async,
+  falsy=[(node index, path)...], fail={index: 'V'|'U'}, setup=[...], debug=[...], fn=[...] (shared function names),
+  consts={index: [..]}, cflag={index: value}, tags={index: tag}
+  sel={'T':..,'X':..,'R':..} | None, ties=<budget|None>, warm=<number of earlier calls>, debug_on, batch
+"""
 from __future__ import annotations
 
 import itertools
-from typing import Iterator
+from dataclasses import replace
+from typing import Iterator, List
 
-from .gprog import GProg, prog_from_shape, res_menu, seq_menu, prio_menu, shapes, with_attrs
+from .gprog import NOFLAG, Edge, GNode, GProg, prio_menu, res_menu, seq_menu, shapes
+
+EDGE_KINDS = [("pos", ()), ("kw", ()), ("pos", (0,)), ("kw", ("k",)), ("flag", ()), ("flag", ("k", 1))]
 
 
 def all_res(n: int):
@@ -21,6 +30,113 @@ def all_prio(n: int, alphabet=(-1, 0, 2)):
 
 def desc_prio(n: int):
     return tuple(range(n - 1, -1, -1))
+
+
+def kinds_all(es) -> Iterator[list]:
+    """Every assignment of an edge kind to every edge (at most one flag edge per node)."""
+    es = list(es)
+    for ks in itertools.product(range(len(EDGE_KINDS)), repeat=len(es)):
+        flags = {}
+        ok = True
+        for (i, j), k in zip(es, ks):
+            if EDGE_KINDS[k][0] == "flag":
+                if j in flags:
+                    ok = False
+                    break
+                flags[j] = 1
+        if ok:
+            yield [(i, j, EDGE_KINDS[k][0], EDGE_KINDS[k][1]) for (i, j), k in zip(es, ks)]
+
+
+def kinds_rotating(es, offset: int = 0) -> list:
+    out = []
+    flags = set()
+    for e, (i, j) in enumerate(es):
+        kind, path = EDGE_KINDS[(e + offset) % len(EDGE_KINDS)]
+        if kind == "flag":
+            if j in flags:
+                kind, path = "pos", ()
+            else:
+                flags.add(j)
+        out.append((i, j, kind, path))
+    return out
+
+
+def prog_of(c: dict) -> GProg:
+    n = c["n"]
+    nodes: List[GNode] = []
+    es = [tuple(e) for e in c["es"]]
+    ids_tmp = None
+    for j in range(n):
+        edges = []
+        for e in es:
+            if e[1] != j:
+                continue
+            if len(e) == 2:
+                edges.append(Edge(e[0], "pos"))
+            else:
+                edges.append(Edge(e[0], e[2], tuple(e[3])))
+        kw = dict(edges=tuple(edges))
+        if "res" in c:
+            kw["res"] = c["res"][j]
+        if "seq" in c:
+            kw["seq"] = bool(c["seq"][j])
+        if "prio" in c:
+            kw["prio"] = c["prio"][j]
+        if j in _keys(c.get("fail")):
+            kw["fail"] = _get(c["fail"], j)
+        if j in c.get("setup", ()):
+            kw["setup"] = True
+        if j in c.get("debug", ()):
+            kw["debug"] = True
+        if c.get("fn"):
+            kw["fn"] = c["fn"][j]
+        if j in _keys(c.get("consts")):
+            kw["consts"] = tuple(_get(c["consts"], j))
+        if j in _keys(c.get("cflag")):
+            kw["const_flag"] = _get(c["cflag"], j)
+        if j in _keys(c.get("tags")):
+            t = _get(c["tags"], j)
+            kw["tag"] = tuple(t) if isinstance(t, list) else t
+        nodes.append(GNode(**kw))
+    p = GProg(nodes=tuple(nodes), mc=c.get("mc", 1), is_async=c.get("is_async", False))
+    if c.get("falsy"):
+        ids = p.ids()
+        p = replace(p, falsy=frozenset((ids[i], tuple(path)) for i, path in c["falsy"]))
+    return p
+
+
+def _keys(d):
+    if not d:
+        return ()
+    return {int(k) for k in d}
+
+
+def _get(d, j):
+    return d[j] if j in d else d[str(j)]
+
+
+def flag_falsy_variants(es4) -> list:
+    """For a kind assignment: [no falsy token] + [every flag source falsy at the flag's path] when flags exist."""
+    fl = [(i, path) for (i, j, kind, path) in es4 if kind == "flag"]
+    out = [[]]
+    if fl:
+        out.append([[i, list(path)] for i, path in fl])
+    return out
+
+
+def single_selections(p: GProg) -> list:
+    """SELm: whole DAG, each single target, each single root, each single exclude (those inside the quantifier)."""
+    out = [None]
+    n = len(p.nodes)
+    for i in range(n):
+        out.append({"T": [i], "X": None, "R": None})
+    for i in range(n):
+        if p.is_root(i):
+            out.append({"T": None, "X": None, "R": [i]})
+    for i in range(n):
+        out.append({"T": None, "X": [i], "R": None})
+    return out
 
 
 def shard_iter(it, k: int, n: int, acc):
